@@ -194,7 +194,9 @@ def check_elab_history(hist):
     BB.add(h.Signal(name="y"))
     bb = top.add(BB(), name="bb")
     view = {}
-    held = {(i, p): getattr(insts[i], p) for i in range(3) for p in E_PORTS}    # references saved before anything happens
+    # references saved before anything happens - only for the ports this history goes on to use them for (taking a
+    # reference to a port is itself an event: a port that was never referred to is resolved through another route)
+    held = {(t[1], t[2]): getattr(insts[t[1]], t[2]) for _, _, _, t in hist if t is not None and t[0] in ("held", "catref")}
 
     def obj(t):
         if t[0] == "sig":
